@@ -30,12 +30,14 @@ def run(ctx):
     ctx.rule("C17-R2", "the fresh-index counter is bumped only where a free-list pop failed")
     ctx.rule("C17-R4", "a batch kill recycles only elements that died: the bound of the recycled prefix counts completed kills")
     ctx.rule("C17-R3", "no index is lost in merge: every pending creation becomes alive or is reported dead (and then recycled by R1)")
+    ctx.rule("C17-R5", "the free list takes every index it is handed: its growing methods push the whole of their parameter")
     for cfg in (["A"] if ctx.tier == "quick" else ["A", "F", "N", "FN"]):
         facts = ctx.xfacts(cfg)
         model = AllocModel(facts)
         ctx.anchor("C17-R1", "free-list growers (EntityCache methods pushing onto `cache`)", model.growers)
         model.recyclers()
         ctx.note("[%s] growers: %s; must-recycle wrappers: %s" % (cfg, sorted(model.growers), sorted(model.recyclers())))
+        r5(ctx, facts, model)
         nd = 0
         for b in model.bodies + model.closures:
             deaths = model.death_sites(b) + [(bb, b.term(bb)) for bb, k in model.gen_slot_calls(b, model.die)]
@@ -216,3 +218,48 @@ def counted_bound(b, dep, use_bb):
                 return False
         return True
     return ok_operand(op, at)
+
+
+SELECTIVE = {"filter", "filter_map", "take", "skip", "take_while", "skip_while", "step_by", "map_while", "dedup", "dedup_by", "dedup_by_key", "retain", "truncate"}
+
+
+def r5(ctx, facts, model):
+    """R1 establishes that every death reaches a recycle call; R5 that the recycle call does not quietly drop some of what it is given: in
+    every growing method of the free list (`extend`, a `push` helper ..) the data that reaches the vector's growth call is the method's own
+    parameter, untouched by selective adaptors, and the growth is on every path (an index filtered out as 'already listed' or skipped by an
+    early return is leaked for the life of the world)."""
+    allb = getattr(facts, "all_bodies", facts.bodies)
+    n = 0
+    for b in allb:
+        if b.path not in model.growers:
+            continue
+        n += 1
+        grows = [(bb, t) for bb, t in b.calls() if t["callee"].get("name") in ("push", "extend", "extend_from_slice", "append", "insert") and
+                 ("vec::Vec" in ((t["callee"].get("self_ty") or "") + t["callee"].get("path", ""))) and model.field_of(b, b.arg_origin(bb, 0)) == ("cache",)]
+        if not grows:
+            continue
+        ok, wit = b.must_pass(0, [bb for bb, _ in grows])
+        why = "" if ok else "the method can return without growing the free list: %s" % b.fmt_path(wit)
+        for bb, t in grows:
+            if len(t["args"]) < 2:
+                continue
+            ao = b.arg_origin(bb, len(t["args"]) - 1)
+            deps = b.deps(ao) | {ao}
+            sel = sorted({b.term(d[1])["callee"].get("name") for d in deps if d[0] == "call" and b.term(d[1])["callee"].get("name") in SELECTIVE})
+            from_param = any(d[0] == "param" and d[1] >= 2 for d in deps)
+            if sel or not from_param:
+                ok = False
+                why = "what is pushed onto the free list %s: indices handed to the free list can be dropped, i.e. leaked" % (
+                    ("goes through %s" % sel) if sel else "does not come from the method's parameter")
+        # a guard in front of the push (`if !self.listed.contains(i)`) inside a loop is the same thing written imperatively
+        for bb, t in grows:
+            if b.in_loop(bb):
+                nexts = [nbb for nbb, nt in b.calls() if nt["callee"].get("name") == "next" and bb in b.reachable(nbb) and nbb in b.reachable(bb)]
+                for nbb in nexts:
+                    for ve in b.variant_edges(lambda so, nbb=nbb: so == ("call", nbb, ())):
+                        some = ve["edges"].get("Some")
+                        if some and not b.must_pass(some[1], [bb], goals=[nbb] + b.returns())[0]:
+                            ok = False
+                            why = "an item of the iteration can be skipped without being pushed onto the free list (a leaked index)"
+        ctx.ob("C17-R5", "%s pushes all of its parameter onto the free list" % b.path, ok, b.loc(), why)
+    ctx.floor("C17-R5", "growing methods of the free list", n, 1)
